@@ -30,7 +30,7 @@ def edits(entries, nfaces, axes):
     """every single edit of a table"""
     out = []
     for k, e in enumerate(entries):
-        for nf in list(range(nfaces)) + [nfaces]:  # nfaces = a face that does not exist
+        for nf in list(range(nfaces)) + [nfaces, -1]:  # nfaces, -1 = faces that do not exist
             if nf != e[3]:
                 out.append(entries[:k] + [[e[0], e[1], e[2], nf, e[4], e[5]]] + entries[k + 1:])
         for na in axes + ["a9"]:  # a9 = an axis the grid lacks
@@ -97,11 +97,14 @@ def gen_cases(rng, thorough):
             t = [[e[0], "a9" if e[1] == a else e[1], e[2], e[3], "a9" if e[4] == a else e[4], e[5]] for e in entries]
             cases.append({"nfaces": nf, "axes": axes, "table": t, "nfacedims": 1, "facedim_in_ds": True})
         for f in range(nf):
-            t = [[nf + 1 if e[0] == f else e[0], e[1], e[2], nf + 1 if e[3] == f else e[3], e[4], e[5]] for e in entries]
-            cases.append({"nfaces": nf, "axes": axes, "table": t, "nfacedims": 1, "facedim_in_ds": True})
+            # nf + 1: beyond the face dimension; f - nf: a negative number (which positional indexing would wrap to f)
+            for g in (nf + 1, f - nf):
+                t = [[g if e[0] == f else e[0], e[1], e[2], g if e[3] == f else e[3], e[4], e[5]] for e in entries]
+                cases.append({"nfaces": nf, "axes": axes, "table": t, "nfacedims": 1, "facedim_in_ds": True})
     for k, c in enumerate(cases):
         c["id"] = k + 1
         c["ev"] = "Construct"
+        c["facecoord"] = rng.random() < 0.7      # the face dimension with or without a coordinate variable in the dataset
     return cases
 
 
@@ -112,10 +115,12 @@ def execute(case):
 
     rec = dict(case)
     nf = case["nfaces"]
-    coords = {"d9": ("d9", np.arange(nf))}
+    coords = {"d9": ("d9", np.arange(nf))} if case.get("facecoord", True) else {}
     for d in ("d1", "d2", "d4", "d5"):
         coords[d] = (d, np.arange(3.0))
     ds = xr.Dataset(coords=coords)
+    if not case.get("facecoord", True):
+        ds["v0"] = (("d9", "d1"), np.zeros((nf, 3)))           # the dimension exists, without a coordinate
     fc = faces.fc_dict(case["table"], nf, "d9" if case["facedim_in_ds"] else "d_missing")
     if case["nfacedims"] == 2:
         fc["d_second"] = {0: {}}
